@@ -14,12 +14,14 @@ ASSUMPTIONS = ['all programs of the grammar cannot be enumerated: 44 forms (+ on
 
 
 def contracts(tier):
-    return []
+    # generic drivers: which index pair / multi-index every output element is computed from (shared with C08)
+    from contracts import assemble_tools_c08 as A
+    return A.FROM_SEQ + A.NEXT_LEX + A.ASM_VECTOR + [c for c in A.CHUNK_KERNELS if '[' not in c.name or '[1x1]' in c.name or '[2x1]' in c.name]
 
 
 def extra_obligations(tier):
-    from contracts import codegen_c01
-    return codegen_c01.results(tier)
+    from contracts import codegen_c01, assemble_tools_c08 as A
+    return codegen_c01.results(tier) + [solve.custom_result('assemble_tools_cy:assemble_vector[ravel-lemma]', A.F, 'assemble_vector / next_lexicographic', A.ravel_successor_lemma)]
 
 
 MANIFEST = {
